@@ -157,7 +157,17 @@ func runC07(run *Run, replay string) {
 		if bi%5 == 1 {
 			opts.Gen.MaxDepth = 3
 		}
-		for si, sc := range genScenarios(r, opts) {
+		scs07 := genScenarios(r, opts)
+		if bi == 0 {
+			// block counts between the limits, static and generated (dynamic) blocks mixed; every offset
+			for _, fs := range validationFocusScenarios() {
+				for off := 0; off <= len(fs.Src); off++ {
+					fs.Offsets = append(fs.Offsets, off)
+				}
+				scs07 = append(scs07, fs)
+			}
+		}
+		for si, sc := range scs07 {
 			f := sc.Main.Ctx.Files[sc.File]
 			body, ok := f.Body.(*hclsyntax.Body)
 			if !ok {
@@ -175,7 +185,7 @@ func runC07(run *Run, replay string) {
 			pairs := List{}
 			_, pdiags := hclsyntax.ParseConfig(sc.Src, sc.File, hcl.InitialPos)
 			cleanParse := !pdiags.HasErrors()
-			for _, off := range cursorOffsets(r, sc.Src, false, posN) {
+			for _, off := range append(cursorOffsets(r, sc.Src, false, posN), sc.Offsets...) {
 				pos, ok := tbl[off]
 				if !ok {
 					continue
